@@ -14,6 +14,7 @@ from . import sym
 from .sym import Arr, lift, is_z3, concrete_int
 
 TOL = 1e-7
+concrete_int = sym.concrete_int
 
 
 def _sym(*xs):
